@@ -2,7 +2,13 @@
 // C23 — bounded stand-in (NOT a proof): prune_non_relay_paths is extracted verbatim from /repo on every run, compiled with
 // rustc against the small std-only shims below and executed on EVERY path population up to the stated bound.  The function's
 // body is an iterator/sort/HashSet/retain pipeline that neither Verus nor CBMC (hashbrown) can take.
-#![allow(dead_code, unused_imports, unused_variables)]
+#![allow(dead_code, unused_imports, unused_variables, unused_macros)]
+// tracing macros (shim: logging has no bearing on the property)
+macro_rules! trace { ($($t:tt)*) => {}; }
+macro_rules! debug { ($($t:tt)*) => {}; }
+macro_rules! info { ($($t:tt)*) => {}; }
+macro_rules! warn { ($($t:tt)*) => {}; }
+macro_rules! error { ($($t:tt)*) => {}; }
 use std::collections::{HashMap, HashSet};
 use std::time::{Duration, Instant};
 // shim: rustc_hash::FxHashMap is std's HashMap with another hasher
